@@ -68,9 +68,17 @@ def run(rep, index):
     start_f = [k for k, v in o0.d.items() if v is s0]
     cnt_f = [k for k, v in o0.d.items() if isinstance(v, (int, Aff)) and not isinstance(v, bool)]
     ok = len(start_f) == 1 and len(cnt_f) == 1 and len(o0.d) == 2
-    rep.ob("C13.R1 init", CLS + ".__init__", ok, "state after construction: %r" % (o0.d,))
     if not ok:
+        # another state representation than (start object, one integer): the refinement cannot be set up.  A violation
+        # needs a history on which the interpreted class departs from start + (n mod 10); otherwise undecided.
+        w = _find_history(ev, index, m, cls, public)
+        if w is None:
+            raise AnalysisError("C13: the sequencer's state after construction is %r, not (start object, one integer); no coupling "
+                                "with the model is known and no examined history departs from it -- undecided" % (sorted(o0.d),))
+        rep.ob("C13.R1 init", CLS + ".__init__", False, "state after construction: %r; witness history: %s" % (sorted(o0.d), w))
+        start_values(rep, index, ev)
         return
+    rep.ob("C13.R1 init", CLS + ".__init__", True, "state after construction: %r" % (o0.d,))
     SF, CF = start_f[0], cnt_f[0]
     c0 = B.norm(Aff.of(o0.d[CF]))
     rep.ob("C13.R1 init-counter-zero", CLS + ".__init__", c0.is_const() and c0.c == 0, "initial counter = %r" % c0)
